@@ -20,6 +20,7 @@ type boundary struct {
 	shape string
 	n     int
 	src   string
+	mods  map[string]string
 }
 
 func seqLines(n int, f func(i int) string) string {
@@ -41,7 +42,7 @@ func joinN(n int, sep string, f func(i int) string) string {
 
 func boundaryPrograms() []boundary {
 	var out []boundary
-	add := func(shape string, n int, src string) { out = append(out, boundary{shape, n, src}) }
+	add := func(shape string, n int, src string) { out = append(out, boundary{shape: shape, n: n, src: src}) }
 	v := func(i int) string { return fmt.Sprintf("v%d", i) }
 	decl := func(i int) string { return fmt.Sprintf("v%d := %d", i, i*3) }
 	for _, n := range []int{1, 127, 128, 255, 256, 257} {
@@ -80,6 +81,16 @@ func boundaryPrograms() []boundary {
 		add("long-jump-if", n, "x := 0\nif x == 0 {\n"+body+"} else {\nx = -1\n}\nreturn x")
 		add("long-jump-fn-try", n, "f := func(x) {\ntry {\n"+body+"throw x\n} catch e {\nreturn string(e)\n} finally {\nx = 0\n}\n}\nreturn f(0)")
 	}
+	// an uncaught error raised by the very first byte of a file (position == the file's base in the file
+	// set): in the main script, in the only module, in the last and in the first of two modules
+	out = append(out,
+		boundary{shape: "error-at-first-byte", n: 0, src: `throw "boom"`},
+		boundary{shape: "error-at-first-byte", n: 1, src: "nope := 1\nreturn import(\"m\")", mods: map[string]string{"m": `throw error("in module")`}},
+		boundary{shape: "error-at-first-byte", n: 2, src: "a := import(\"ma\")\nreturn import(\"mb\")", mods: map[string]string{"ma": "return 1", "mb": `[1][5]`}},
+		boundary{shape: "error-at-first-byte", n: 3, src: "a := import(\"ma\")\nreturn a", mods: map[string]string{"ma": `throw "first"`, "mb": "return 2"}},
+		boundary{shape: "error-at-first-byte", n: 4, src: "f := func() { throw \"x\" }\nf()"},
+		boundary{shape: "error-at-first-byte", n: 5, src: `import("m")()`, mods: map[string]string{"m": "return func() {\n  return 1 / 0\n}"}},
+	)
 	for _, n := range []int{255, 256, 65535, 65536, 1 << 20} {
 		add("string-constant", n, `s := "`+strings.Repeat("a", n)+`"`+"\nreturn len(s)")
 	}
@@ -89,12 +100,12 @@ func boundaryPrograms() []boundary {
 func boundaryCheck(t *testing.T, rec *ev.Rec) {
 	for _, b := range boundaryPrograms() {
 		name := fmt.Sprintf("%s/%d", b.shape, b.n)
-		in := input{c: prog.Case{Src: b.src, Note: "boundary " + name}}
+		in := input{c: prog.Case{Src: b.src, Modules: b.mods, Note: "boundary " + name}}
 		for _, noopt := range []bool{true, false} {
 			if !noopt && len(b.src) > 200000 {
 				continue // the optimizer is slow on huge scripts and adds nothing to the encoding question
 			}
-			bc, cerr, pan := run.Compile(b.src, ugo.CompilerOptions{NoOptimize: noopt})
+			bc, cerr, pan := run.Compile(b.src, ugo.CompilerOptions{NoOptimize: noopt, ModuleMap: moduleMap(b.mods)})
 			if pan != "" || cerr != nil || bc == nil {
 				rec.Class("boundary-refused-by-compiler:" + b.shape)
 				rec.Exclude("boundary-refused-by-compiler")
